@@ -1703,4 +1703,265 @@ theorem tbl_group_perm {α : Type} [BEq α] [LawfulBEq α] (keys keys' : List α
   · rw [p1, p2, q1, q2]
     exact tbl_groupStat_perm (fun r : α × K × K => r.2.1) (fun r => r.2.2) _ _ hf
 
+variable {K : Type} [Field K] [LinearOrder K] [IsStrictOrderedRing K]
+
+/-- re-ordering a column by an index list -/
+def tbl_reorder {β : Type} (p : List Nat) (l : List β) : List β := p.filterMap (fun i => l[i]?)
+
+theorem tbl_reorder_perm {β : Type} (p : List Nat) (l : List β) (hp : p.Perm (List.range l.length)) :
+    (tbl_reorder p l).Perm l := by
+  unfold tbl_reorder
+  have := hp.filterMap (fun i => l[i]?)
+  rwa [tbl_filterMap_range] at this
+
+theorem tbl_reorder_zip {β γ : Type} (p : List Nat) (a : List β) (b : List γ) (h : a.length = b.length) :
+    List.zip (tbl_reorder p a) (tbl_reorder p b) = tbl_reorder p (List.zip a b) := by
+  unfold tbl_reorder
+  induction p with
+  | nil => rfl
+  | cons i t ih =>
+    by_cases hi : i < a.length
+    · have hi' : i < b.length := by omega
+      have hz : i < (List.zip a b).length := by rw [List.length_zip]; omega
+      simp only [List.filterMap_cons, List.getElem?_eq_getElem hi, List.getElem?_eq_getElem hi',
+        List.getElem?_eq_getElem hz, List.zip_cons_cons, ih, List.getElem_zip]
+    · have hi' : ¬ i < b.length := by omega
+      have hz : ¬ i < (List.zip a b).length := by rw [List.length_zip]; omega
+      simp only [List.filterMap_cons, List.getElem?_eq_none (not_lt.1 hi),
+        List.getElem?_eq_none (not_lt.1 hi'), List.getElem?_eq_none (not_lt.1 hz), ih]
+
+/-- the row of group `k` -/
+def tbl_groupRow {α : Type} [BEq α] (keys : List α) (cols : List (List K)) (ws : List K) (k : α) :
+    GroupRow K α :=
+  ⟨k, (tbl_idx keys k).length, ((tbl_idx keys k).filterMap (fun i => ws[i]?)).sum,
+    cols.map (fun c => groupStat ((tbl_idx keys k).filterMap (fun i => c[i]?))
+      ((tbl_idx keys k).filterMap (fun i => ws[i]?))), tbl_idx keys k⟩
+
+theorem tbl_groupRows_eq' {α : Type} [BEq α] (keys : List α) (cols : List (List K)) (ws : List K) :
+    groupRows keys cols ws = (distinctKeys keys).map (tbl_groupRow keys cols ws) := rfl
+
+/-- permuting the rows consistently: every group of the original table has a counterpart in the
+permuted table with the same key, count, weight and column statistics -/
+theorem tbl_groupRows_perm {α : Type} [BEq α] [LawfulBEq α] (keys : List α) (cols : List (List K))
+    (ws : List K) (hw : ws.length = keys.length) (hcols : ∀ c ∈ cols, c.length = keys.length)
+    (p : List Nat) (hp : p.Perm (List.range keys.length)) :
+    ∀ g ∈ groupRows keys cols ws,
+      ∃ g' ∈ groupRows (tbl_reorder p keys) (cols.map (tbl_reorder p)) (tbl_reorder p ws),
+        g'.key = g.key ∧ g'.count = g.count ∧ g'.weights = g.weights ∧ g'.stats = g.stats := by
+  intro g hg
+  rw [tbl_groupRows_eq', List.mem_map] at hg
+  obtain ⟨k, hk, rfl⟩ := hg
+  have hkeys : (tbl_reorder p keys).Perm keys := tbl_reorder_perm p keys hp
+  have hlen : (tbl_reorder p keys).length = keys.length := hkeys.length_eq
+  have hws : (tbl_reorder p ws).length = (tbl_reorder p keys).length := by
+    rw [hlen, ← hw]; exact (tbl_reorder_perm p ws (hw ▸ hp)).length_eq
+  have hk' : k ∈ distinctKeys (tbl_reorder p keys) := by
+    rw [tbl_mem_distinctKeys] at hk ⊢
+    exact hkeys.mem_iff.2 hk
+  have hz : ∀ c : List K, c.length = keys.length →
+      (List.zip keys (List.zip ws c)).Perm
+        (List.zip (tbl_reorder p keys) (List.zip (tbl_reorder p ws) (tbl_reorder p c))) := by
+    intro c hc
+    rw [tbl_reorder_zip p ws c (by omega), tbl_reorder_zip p keys _ (by rw [List.length_zip]; omega)]
+    refine (tbl_reorder_perm p _ ?_).symm
+    rw [List.length_zip, List.length_zip]
+    have : min keys.length (min ws.length c.length) = keys.length := by omega
+    rw [this]; exact hp
+  refine ⟨tbl_groupRow (tbl_reorder p keys) (cols.map (tbl_reorder p)) (tbl_reorder p ws) k,
+    by rw [tbl_groupRows_eq']; exact List.mem_map.2 ⟨k, hk', rfl⟩, rfl, ?_, ?_, ?_⟩
+  · exact ((tbl_group_perm keys _ ws _ ws _ hw hw hws hws (hz ws hw) k).1).symm
+  · exact ((tbl_group_perm keys _ ws _ ws _ hw hw hws hws (hz ws hw) k).2.1).symm
+  · show (cols.map (tbl_reorder p)).map _ = cols.map _
+    rw [List.map_map]
+    apply List.map_congr_left
+    intro c hc
+    have hc' : (tbl_reorder p c).length = (tbl_reorder p keys).length := by
+      rw [hlen, ← hcols c hc]; exact (tbl_reorder_perm p c ((hcols c hc) ▸ hp)).length_eq
+    exact ((tbl_group_perm keys _ ws _ c _ hw (hcols c hc) hws hc' (hz c (hcols c hc)) k).2.2).symm
+
+variable {K : Type} [Field K] [LinearOrder K] [IsStrictOrderedRing K]
+
+/-! ### 10. the null group survives `head(n_bins)` -/
+
+theorem tbl_foldl_max_count {α : Type} (gs : List (GroupRow K α)) (m : Nat) :
+    m ≤ gs.foldl (fun m g => max m g.count) m ∧
+    ∀ g ∈ gs, g.count ≤ gs.foldl (fun m g => max m g.count) m := by
+  induction gs generalizing m with
+  | nil => simp
+  | cons a t ih =>
+    simp only [List.foldl_cons]
+    obtain ⟨h1, h2⟩ := ih (max m a.count)
+    refine ⟨le_trans (le_max_left _ _) h1, ?_⟩
+    intro g hg
+    rcases List.mem_cons.1 hg with rfl | hg
+    · exact le_trans (le_max_right _ _) h1
+    · exact h2 g hg
+
+/-- if there is a group with a null key and `n_bins ≥ 1`, a null-key group survives truncation -/
+theorem tbl_truncate_null {α : Type} (isNull : α → Bool) (nBins : Nat) (h1 : 1 ≤ nBins)
+    (gs : List (GroupRow K α)) (g0 : GroupRow K α) (hg0 : g0 ∈ gs) (hn : isNull g0.key = true) :
+    ∃ g ∈ truncateGroups isNull nBins gs, isNull g.key = true := by
+  unfold truncateGroups
+  simp only []
+  generalize hmaxc : gs.foldl (fun m g => max m g.count) 0 = maxc
+  have hcount : ∀ g ∈ gs, g.count ≤ maxc := by
+    rw [← hmaxc]; exact (tbl_foldl_max_count gs 0).2
+  have hsorted := List.pairwise_mergeSort
+    (le := fun (a b : GroupRow K α) => decide ((if isNull a.key then maxc + 1 else a.count) ≥
+      (if isNull b.key then maxc + 1 else b.count)))
+    (by intro a b c hab hbc
+        simp only [decide_eq_true_eq] at *
+        omega)
+    (by intro a b
+        simp only [Bool.or_eq_true, decide_eq_true_eq]
+        omega) gs
+  have hmem : ∀ g, g ∈ gs.mergeSort (fun a b => decide ((if isNull a.key then maxc + 1 else a.count) ≥
+      (if isNull b.key then maxc + 1 else b.count))) ↔ g ∈ gs := fun g => List.mem_mergeSort
+  generalize gs.mergeSort (fun a b => decide ((if isNull a.key then maxc + 1 else a.count) ≥
+      (if isNull b.key then maxc + 1 else b.count))) = s at hsorted hmem
+  cases s with
+  | nil => exact absurd ((hmem g0).2 hg0) (by simp)
+  | cons h t =>
+    obtain ⟨n, rfl⟩ : ∃ n, nBins = n + 1 := ⟨nBins - 1, by omega⟩
+    refine ⟨h, by simp, ?_⟩
+    by_contra hh
+    have hh' : isNull h.key = false := by simpa using hh
+    have hg0' := (hmem g0).2 hg0
+    rcases List.mem_cons.1 hg0' with rfl | hg0t
+    · rw [hn] at hh'; cases hh'
+    · have := (List.pairwise_cons.1 hsorted).1 g0 hg0t
+      simp only [hh', hn, decide_eq_true_eq, if_true, Bool.false_eq_true, if_false] at this
+      have := hcount h ((hmem h).1 (by simp))
+      omega
+
+variable {K : Type} [Field K] [LinearOrder K] [IsStrictOrderedRing K]
+
+/-! ### 11. `compute_marginal` -/
+
+theorem tbl_zipWith_mul_sub (ws pred y : List K) (h : pred.length = y.length) :
+    (List.zipWith (· * ·) ws (List.zipWith (fun p y => p - y) pred y)).sum =
+      (List.zipWith (· * ·) ws pred).sum - (List.zipWith (· * ·) ws y).sum := by
+  induction ws generalizing pred y with
+  | nil => simp
+  | cons w t ih =>
+    cases pred with
+    | nil =>
+      cases y with
+      | nil => simp
+      | cons b y => simp at h
+    | cons a pred =>
+      cases y with
+      | nil => simp at h
+      | cons b y =>
+        simp only [List.zipWith_cons_cons, List.sum_cons]
+        rw [ih pred y (by simpa using h)]
+        ring
+
+/-- the weighted mean is linear: mean of `pred − y` = mean of `pred` − mean of `y` -/
+theorem tbl_groupStat_mean_sub (ws pred y : List K) (h : pred.length = y.length) :
+    (groupStat (List.zipWith (fun p y => p - y) pred y) ws).mean =
+      (groupStat pred ws).mean - (groupStat y ws).mean := by
+  rw [tbl_groupStat_mean, tbl_groupStat_mean, tbl_groupStat_mean, tbl_zipWith_mul_sub ws pred y h, sub_div]
+
+theorem tbl_pick_sub (idx : List Nat) (pred y : List K) (hp : ∀ i ∈ idx, i < pred.length)
+    (hy : ∀ i ∈ idx, i < y.length) :
+    idx.filterMap (fun i => (List.zipWith (fun p y => p - y) pred y)[i]?) =
+      List.zipWith (fun p y => p - y) (idx.filterMap (fun i => pred[i]?)) (idx.filterMap (fun i => y[i]?)) := by
+  induction idx with
+  | nil => rfl
+  | cons i t ih =>
+    have h1 := hp i (by simp)
+    have h2 := hy i (by simp)
+    have hz : (List.zipWith (fun p y => p - y) pred y)[i]? = some (pred[i] - y[i]) := by
+      simp [List.getElem?_zipWith, List.getElem?_eq_getElem h1, List.getElem?_eq_getElem h2]
+    rw [List.filterMap_cons_some hz, List.filterMap_cons_some (List.getElem?_eq_getElem h1),
+      List.filterMap_cons_some (List.getElem?_eq_getElem h2), List.zipWith_cons_cons,
+      ih (fun j hj => hp j (List.mem_cons_of_mem _ hj)) (fun j hj => hy j (List.mem_cons_of_mem _ hj))]
+
+/-- per group: `mean(pred) − mean(y)` is the mean of the column `pred − y` -/
+theorem tbl_group_bias {α : Type} [BEq α] [LawfulBEq α] (keys : List α) (y pred ws : List K)
+    (hy : y.length = keys.length) (hp : pred.length = keys.length) (k : α) :
+    (tbl_groupRow keys [List.zipWith (fun p y => p - y) pred y] ws k).stats.map (·.mean) =
+      [(groupStat ((tbl_idx keys k).filterMap (fun i => pred[i]?)) ((tbl_idx keys k).filterMap (fun i => ws[i]?))).mean -
+       (groupStat ((tbl_idx keys k).filterMap (fun i => y[i]?)) ((tbl_idx keys k).filterMap (fun i => ws[i]?))).mean] := by
+  unfold tbl_groupRow
+  simp only [List.map_cons, List.map_nil]
+  rw [tbl_pick_sub _ pred y (fun i hi => hp ▸ tbl_idx_lt keys k i hi) (fun i hi => hy ▸ tbl_idx_lt keys k i hi),
+    tbl_groupStat_mean_sub]
+  rw [tbl_pick_eq_map pred _ (fun i hi => hp ▸ tbl_idx_lt keys k i hi),
+    tbl_pick_eq_map y _ (fun i hi => hy ▸ tbl_idx_lt keys k i hi), List.length_map, List.length_map]
+
+/-- the edges reported for a numeric group are those of its bin -/
+theorem tbl_group_edges (m : BinMethod) (nBins : Nat) (given : List K) (feature : List (Cell K))
+    (cols : List (List K)) (ws : List K) (g : GroupRow K Key)
+    (hg : g ∈ groupRows ((binNumeric m nBins given feature).bins.map tbl_numKey) cols ws) :
+    (tbl_outRow feature (binNumeric m nBins given feature).edges g).edges =
+      match g.key with
+      | .num i => some ((tbl_full m nBins given feature).getD i .null,
+          (tbl_full m nBins given feature).getD (i + 1) .null)
+      | _ => none := by
+  rw [tbl_groupRows_eq', List.mem_map] at hg
+  obtain ⟨k, hk, rfl⟩ := hg
+  have hk' := (tbl_mem_distinctKeys _ k).1 hk
+  have hne := tbl_idx_ne_nil _ k hk'
+  unfold tbl_outRow tbl_groupRow
+  simp only []
+  cases hidx : tbl_idx ((binNumeric m nBins given feature).bins.map tbl_numKey) k with
+  | nil => exact absurd hidx hne
+  | cons j t =>
+    have hj : j ∈ tbl_idx ((binNumeric m nBins given feature).bins.map tbl_numKey) k := by
+      rw [hidx]; simp
+    rw [tbl_mem_idx, List.getElem?_map] at hj
+    simp only [List.head?_cons, Option.bind_some]
+    rw [tbl_binNumeric_edges, List.getElem?_map]
+    cases hb : (binNumeric m nBins given feature).bins[j]? with
+    | none => rw [hb] at hj; cases hj
+    | some o =>
+      rw [hb] at hj
+      simp only [Option.map_some, Option.some.injEq] at hj
+      cases o with
+      | none =>
+        simp only [tbl_numKey] at hj
+        rw [← hj]; rfl
+      | some i =>
+        simp only [tbl_numKey] at hj
+        rw [← hj]; rfl
+
+/-- labels of the binned string column: a real value of the column or the pooled name -/
+theorem tbl_sbins_mem (enumOrder : Option (List String)) (nBins : Nat) (feature : List (Option String))
+    (s : String) (h : some s ∈ (binString enumOrder nBins feature).bins) :
+    some s ∈ feature ∨ (binString enumOrder nBins feature).pooled = some s := by
+  rw [tbl_pooled_str]
+  rw [tbl_binString_eq] at h
+  by_cases hc : tbl_sNBinsEf nBins feature ≥ (tbl_vc enumOrder feature).length
+  · rw [if_pos hc] at h; exact Or.inl h
+  · rw [if_neg hc] at h
+    rw [if_neg hc]
+    simp only [List.mem_map] at h
+    obtain ⟨v, hv, hvs⟩ := h
+    cases v with
+    | none => cases hvs
+    | some s0 =>
+      simp only [Option.map_some, Option.some.injEq] at hvs
+      by_cases hk : (tbl_keep enumOrder nBins feature).contains s0 = true
+      · rw [if_pos hk] at hvs; left; rw [← hvs]; exact hv
+      · rw [if_neg hk] at hvs; right; rw [hvs]
+
+/-- a label is not a real value iff it is the pooled name -/
+theorem tbl_pooled_iff (enumOrder : Option (List String)) (nBins : Nat) (feature : List (Option String))
+    (hdecl : ∀ s, some s ∈ feature → s ∈ tbl_existing enumOrder feature)
+    (s : String) (h : some s ∈ (binString enumOrder nBins feature).bins) :
+    some s ∉ feature ↔ (binString enumOrder nBins feature).pooled = some s := by
+  constructor
+  · intro hn
+    rcases tbl_sbins_mem enumOrder nBins feature s h with h' | h'
+    · exact absurd h' hn
+    · exact h'
+  · intro hp hmem
+    rw [tbl_pooled_str] at hp
+    split at hp
+    · cases hp
+    · rw [← Option.some.inj hp] at hmem
+      exact tbl_name_not_mem enumOrder nBins feature (hdecl _ hmem)
+
 end MD
